@@ -194,6 +194,7 @@ def _task_alldefs(args):
     db = refdb.db()
     from .. import payloads
     bad, n = [], 0
+    shared = NMEA2000Decoder()
     for di in idxs:
         defn = db.defs[di]
         p, nb = payloads.build(defn, payloads.base_assignment(defn, "mid"))
@@ -207,6 +208,16 @@ def _task_alldefs(args):
             for ename, fn in wire.entry_points(defn.pgn, payload, defn.fast, prio=prio, src=src, dst=dst, seq=(di + prio) % 8).items():
                 if ename in ("plain_combined", "plain_frames"):
                     continue
+                if ename == "ebyte":
+                    # the same frames once more on one long-lived decoder that has seen the same payload from other addresses
+                    # (for the address claim: the same NAME moving from one source address to another)
+                    back = call(fn, shared)
+                    if back is not None and not isinstance(back, str):
+                        n += 1
+                        got = (back.PGN, back.source, back.destination, back.priority)
+                        if got != (defn.pgn, src, dst, prio) and len(bad) < 20:
+                            bad.append(("decoded_header:long_lived_decoder", (prio, defn.pgn, src, dst), got,
+                                        f"{(defn.pgn, src, dst, prio)} (definition {back.id}; the decoder had seen the same payload from other addresses)"))
                 back = call(fn, NMEA2000Decoder())
                 if back is None or isinstance(back, str):
                     continue            # this payload is not decodable as such (C01's subject)
